@@ -135,6 +135,34 @@ CHECKS = {
         "level_note": "race detector reports are taken as sound without reproduction; output mismatches are confirmed by replaying the bundle for 3000 rounds",
         "assumptions": ["schedules are not controlled; coverage is by repetition under several GOMAXPROCS values"],
     },
+    "C10": {
+        "test": "TestC10", "level": "exploration",
+        "quick": {"shards": 8, "checks": 400, "timeout": 900},
+        "thorough": {"shards": 16, "checks": 6000, "timeout": 3400},
+        "rule": "messages whose placeholders collide on base names by construction ($x, $x_1, $x_2, $a.x, $b.x, the same variable with different "
+                "directives, camel-case and digit names, arbitrary expressions incl. pairs differing only in parentheses, 17 HTML tags of every naming "
+                "class, repeats), with and without a plural (any case set, subject a variable or a field), meanings and descriptions; each compiled 15 "
+                "(thorough 40) more times, in variants (description changed, surrounded by other code and messages, extra file in both orders: id "
+                "unchanged; meaning changed, text appended, plural case added, parts swapped: id changes with the content string) and for a share of "
+                "cases in a child process; non-trivial = two placeholders share a base name or the message has a plural",
+        "technique": "property-based metamorphic testing (rapid): determinism across recompiles and processes, (in)sensitivity relations on the id, and an independent implementation of the placeholder naming rule",
+        "level_text": PBT + "ids are judged by relations (never by re-computing the fingerprint), names by an independent naming rule with hand-derived base names",
+        "level_note": "the fingerprint function itself is anchored only by the repository's own known-answer tests; ids of non-plural messages are compared on the unbraced content string (the official algorithm's definition)",
+        "assumptions": ["base names for the generator's placeholder pool are written out by hand from the official rule"],
+    },
+    "C11": {
+        "test": "TestC11", "level": "exploration", "needs_node": True, "needs_extractor": True,
+        "quick": {"shards": 8, "checks": 120, "timeout": 900},
+        "thorough": {"shards": 16, "checks": 2500, "timeout": 3400},
+        "rule": "bundles of 1-3 messages from the colliding-placeholder generator (plurals mostly [case 1, default], some not representable in PO) x "
+                "catalogue in {identity, reversing, rotating, partial} x locale in {en (2 forms), ja (1), cs (3)} x plural subject in {0,1,2,3,5,11,21}; "
+                "pipeline: real xgettext-soy binary -> po.Parse -> fill msgstr -> pomsg.Dir -> Go render with the bundle and generated JavaScript in "
+                "node; non-trivial = >= 2 distinct placeholders and a non-identity catalogue",
+        "technique": "property-based end-to-end round trip (rapid): extraction by the real binary, generated translations, render compared with a prediction from the model; Go vs JavaScript differential",
+        "level_text": PBT + "every case runs the whole extract -> translate -> load -> render pipeline and compares with a model-built prediction (identity catalogue also against the catalogue-free render)",
+        "level_note": "msgid / msgid_plural are predicted from the model with the independent naming rule of C10; unrepresentable plurals must make the extractor exit non-zero",
+        "assumptions": ["node and the extractor binary (built by the driver from /repo) are available"],
+    },
     "C12": {
         "test": "TestC12", "level": "fault_enumeration",
         "quick": {"shards": 8, "checks": 250, "timeout": 900},
